@@ -1650,7 +1650,7 @@ func (schema *Schema) visitJSONNumber(settings *schemaValidationSettings, value 
 	if v := schema.MultipleOf; v != nil {
 		// "A numeric instance is valid only if division by this keyword's
 		//    value results in an integer."
-		if bigFloat := big.NewFloat(value / *v); !bigFloat.IsInt() {
+		if quotient := value / *v; math.IsNaN(quotient) || !big.NewFloat(quotient).IsInt() {
 			if settings.failfast {
 				return errSchema
 			}
